@@ -42,6 +42,23 @@ func (x *Exec) atLoopHeader(st *State, fr *Frame, h *ssa.BasicBlock, ord int, pr
 	if x.probing {
 		return !isBack
 	}
+	if x.boundedRun {
+		// bounded stand-in run: every loop fully unrolled; an execution with
+		// more iterations than the bound must be impossible under the
+		// contract's bounding assumptions (obligation, so the run is complete
+		// within the bound)
+		al := fr.active[h]
+		if !isBack || al == nil {
+			fr.active[h] = &activeLoop{header: h}
+			return true
+		}
+		al.iters++
+		if al.iters > x.boundN {
+			x.oblige(st, "bounded-unroll", key, tFalse, firstPos(h))
+			return false
+		}
+		return true
+	}
 	if x.bounded > 0 {
 		// bounded concretisation (failing-input search only): no invariants,
 		// loops unrolled up to the bound, longer executions are cut off
@@ -158,7 +175,7 @@ func firstPos(b *ssa.BasicBlock) (p token.Pos) {
 func (x *Exec) havocWriteSet(st *State, ws *writeSet, why string) {
 	if ws.all {
 		for _, name := range heapNames(st.heaps) {
-			st.heaps[name] = x.d.fresh("lp."+name, x.heapSorts[name])
+			x.setHeap(st, name, x.d.fresh("lp."+name, x.heapSorts[name]))
 		}
 	}
 	var cells []*Cell
@@ -193,7 +210,7 @@ func (x *Exec) havocWriteSet(st *State, ws *writeSet, why string) {
 	sort.Strings(names)
 	for _, n := range names {
 		x.heapTerm(st, n, ws.heaps[n])
-		st.heaps[n] = x.d.fresh("lp."+n, ws.heaps[n])
+		x.setHeap(st, n, x.d.fresh("lp."+n, ws.heaps[n]))
 	}
 }
 
